@@ -5,7 +5,7 @@ import datetime as dt
 import json
 import re
 
-from common import D, corpus, langdata, pmap, rng, write_replay, load_known, err_kind
+from common import D, Model, corpus, langdata, pmap, rng, write_replay, load_known, err_kind
 
 BASE = D(2020, 5, 17, 12, 0)
 FILLER = ["the meeting was held", "and then we left", "es war einmal", "il était une fois", "потом мы ушли", "xyz", "foo bar baz", "la casa es", "它是", "そして",
@@ -69,13 +69,18 @@ def run(ctx):
     order = ld["order"]
     corp = corpus()
     n = 1500 if tier == "quick" else 40000
+    # phrases whose simplification changes the number of tokens (exercise `_simplify_split_align`)
+    resym = re.compile(r"[\\\[\]\(\)\?\*\+\|\{\}\^\$\.]")
+    recount = {r["name"]: [k for k, v in r.get("simps", []) if not resym.search(k) and len(k.split()) != len((v[0] if v else "").split())] for r in ld["langs"]}
     jobs = []
     for i in range(n):
         lang = order[i % len(order)] if i < 3 * len(order) else (R.choice(order) if R.random() < 0.75 else R.choice(["en", "ru", "es", "fr", "de", "ja", "zh", "yue", "zh-Hant", "zh-Hans", "th", "ar", "fa", "hi", "vi", "hu"]))
         parts = []
         for _ in range(R.randint(1, 4)):
             r = R.random()
-            if r < 0.5:
+            if r < 0.12 and recount.get(lang):
+                parts.append(R.choice(recount[lang]) + R.choice(["", " 10:30", " 2015"]))
+            elif r < 0.5:
                 parts.append(langstr(R, infos[lang]))
             elif r < 0.7:
                 parts.append(R.choice(corp))
@@ -131,12 +136,25 @@ def run(ctx):
                 hits += len(r["r"]); distinct.add(text)
         if why:
             viol.append({"text": text, "languages": langs, "relative_base": base, "add_detected_language": add, "why": why, "observed": r})
+    # model tie: the Lean model of the search layer against the library, layer by layer (see c17_tie.py)
+    tie_mism, tie_stats = [], {}
+    if "model-build" not in ctx["broken"]:
+        from props import c17_tie
+        tj = [(langs[0], text, base) for (text, langs, base, add) in jobs if langs and len(langs) == 1]
+        tj = tj[:: max(1, len(tj) // (400 if tier == "quick" else 6000))]
+        tie_mism, tie_stats = c17_tie.run_tie(tj, Model(), pmap)
+        am, ast_ = c17_tie.run_align_synth(R, 3000 if tier == "quick" else 60000, Model(), pmap)
+        tie_mism += am
+        tie_stats["align_synthetic"] = ast_
+        if tie_mism and not viol and not ctx["broken"]:
+            ctx["broken"]["correspondence"] = json.dumps(tie_mism[:3], ensure_ascii=False, default=str)[:4000]
     out = [{"replay": write_replay("C17", "search-%d" % j, {"property": "C17", "kind": "search_dates contract broken", **v,
             "python": "from dateparser.search import search_dates; print(search_dates(%r%s))" % (v["text"], ", languages=%r" % v["languages"] if v["languages"] else "")})}
            for j, v in enumerate(viol[:10])]
     cov = {"evaluations": len(jobs), "distinct_nontrivial": len(distinct),
            "rule": "texts ≤ 300 chars of multilingual date strings + corpus strings + filler prose joined by mutated punctuation/spacing/line breaks; every one of the 205 languages explicitly (round-robin first), autodetection, two-language lists; ± RELATIVE_BASE, ± add_detected_language; non-trivial = distinct texts with well-formed hits",
            "samples": [{"text": j[0], "languages": j[1]} for j in jobs[:: max(1, len(jobs) // 6)][:6]],
-           "outcome_kinds": dict(kinds), "hits_checked": hits, "contract_violations": len(viol)}
+           "outcome_kinds": dict(kinds), "hits_checked": hits, "contract_violations": len(viol),
+           "model_tie": tie_stats, "model_drift": len(tie_mism), "model_drift_samples": [{k: m[k] for k in ("layer", "locale", "text")} for m in tie_mism[:5]]}
     return {"violations": out, "known": [], "coverage": cov, "level": "proof",
             "assumptions": ["'occurs in the text up to whitespace' = containment after collapsing whitespace runs; text order = each hit is found at or after the previous one"]}
